@@ -109,8 +109,22 @@ func genCase(t *rapid.T) Case {
 	return c
 }
 
+// cidOf maps alphabet index i to a CID. Every fifth index shares its digest with its predecessor and differs
+// only in codec or version: distinct CIDs, so distinct entries of the duplicate filter.
 func cidOf(i int) cid.Cid {
-	mh, _ := multihash.Sum([]byte(fmt.Sprintf("c09-cid-%d", i)), multihash.SHA2_256, -1)
+	base, variant := i, 0
+	if i%5 == 1 {
+		base, variant = i-1, 1+(i/5)%3
+	}
+	mh, _ := multihash.Sum([]byte(fmt.Sprintf("c09-cid-%d", base)), multihash.SHA2_256, -1)
+	switch variant {
+	case 1:
+		return cid.NewCidV1(cid.DagCBOR, mh)
+	case 2:
+		return cid.NewCidV1(cid.Raw, mh)
+	case 3:
+		return cid.NewCidV0(mh)
+	}
 	return cid.NewCidV1(cid.DagJSON, mh)
 }
 
@@ -294,7 +308,7 @@ func runCase(t *testing.T) func(Case) pbt.Result {
 
 func TestC09_Direct(t *testing.T) {
 	pbt.Run(t, pbt.Config{Prop: "C09", Unit: "TestC09_Direct", TrackCurrent: true,
-		Rule: "sequences of 1..400 direct announcements (CID from an alphabet of 70..100 > cache size, drawn with a sliding locality window; one of 4 peers; 0..4 addresses over public / private / loopback / unspecified / special IPv4+IPv6, DNS, localhost, non-IP) and un-cache operations against a real receiver (no pubsub) with a drawn allow filter and IP filtering on/off; after every announcement a consumer waits and the bubble is settled exactly (synctest.Wait): delivered iff the reference model (allow set + recency list of capacity 64) says so, with the same CID and peer and exactly the addresses the filter specification keeps; rejected peers leave the model untouched, duplicates refresh recency, un-cache removes. Non-trivial: an eviction, an un-cache of a cached CID, or duplicates together with rejected peers; distinct by case.",
+		Rule: "sequences of 1..400 direct announcements (CID from an alphabet of 70..100 > cache size in which one CID in five shares its digest with its neighbour and differs only in codec or version, drawn with a sliding locality window; one of 4 peers; 0..4 addresses over public / private / loopback / unspecified / special IPv4+IPv6, DNS, localhost, non-IP) and un-cache operations against a real receiver (no pubsub) with a drawn allow filter and IP filtering on/off; after every announcement a consumer waits and the bubble is settled exactly (synctest.Wait): delivered iff the reference model (allow set + recency list of capacity 64) says so, with the same CID and peer and exactly the addresses the filter specification keeps; rejected peers leave the model untouched, duplicates refresh recency, un-cache removes. Non-trivial: an eviction, an un-cache of a cached CID, or duplicates together with rejected peers; distinct by case.",
 		Assumptions: []string{"special-purpose IP ranges are not asserted either way by the address filter oracle"},
 	}, genCase, runCase(t))
 }
